@@ -245,11 +245,145 @@ func c14Alphabet(c Cfg) []Op {
 	return a
 }
 
+// ---- iterator lock-step: the same iterator call sequences under every (index type, shard count) ----------
+
+func c14IterCfgs() []Cfg {
+	var out []Cfg
+	for _, ix := range []int8{1, 2, 3} {
+		for _, sh := range []int{1, 2, 3, 16} {
+			c := defaultCfg
+			c.Index, c.Shards, c.FileSize = ix, sh, 1<<20
+			out = append(out, c)
+		}
+	}
+	return out
+}
+
+// c14IterTranscript drives one call sequence on w and renders (Valid, Key, Value) after every call.
+func c14IterTranscript(w *World, keys []string, rev bool, prefix string, calls []itCall, vals map[string]string) (string, bool) {
+	var b strings.Builder
+	pruned := false
+	err := w.guard(func() error {
+		it := w.DB.NewIterator(kv.IteratorOptions{Prefix: []byte(prefix), Reverse: rev})
+		defer it.Close()
+		m := newIterModel(keys, prefix, rev, vals) // used ONLY to prune sequences with a backward Seek
+		for _, c := range calls {
+			switch c.K {
+			case "rewind":
+				it.Rewind()
+				m.idx, m.rewond = 0, true
+			case "next":
+				it.Next()
+				if m.valid() {
+					m.idx++
+				}
+				m.rewond = false
+			case "seek":
+				if !m.seekAllowed(c.T) {
+					pruned = true
+					return nil
+				}
+				it.Seek([]byte(c.T))
+				m.seek(c.T)
+			case "write":
+				continue
+			}
+			if it.Valid() {
+				v, err := it.Value()
+				fmt.Fprintf(&b, "%s->%s=%s%s;", c, it.Key(), v, errClass(err))
+			} else {
+				fmt.Fprintf(&b, "%s->invalid;", c)
+			}
+		}
+		return nil
+	})
+	if err != nil {
+		return "PANIC " + panicDetail(err), false
+	}
+	return b.String(), pruned
+}
+
+func c14IterTasks(tier string) []Task {
+	l, bnd := 3, 2
+	if tier == "thorough" {
+		l, bnd = 4, 2
+	}
+	cfgs := c14IterCfgs()
+	var tasks []Task
+	for mask := 0; mask < 64; mask++ {
+		keys := subsetKeys(mask)
+		if len(keys) < 3 {
+			continue
+		}
+		mask := mask
+		tasks = append(tasks, Task{Level: fmt.Sprintf("iterator-lockstep-l%d-b%d", l, bnd), Name: fmt.Sprintf("iterator lock-step keys %q", keys), Fn: func(res *TaskResult) {
+			keys := subsetKeys(mask)
+			worlds := make([]*World, len(cfgs))
+			var vals map[string]string
+			for i, cfg := range cfgs {
+				w, v, werr := c10World(c10Replay{Mask: mask, Index: cfg.Index, Shards: cfg.Shards})
+				if werr != "" {
+					res.Err = werr
+					return
+				}
+				worlds[i], vals = w, v
+			}
+			defer func() {
+				for _, w := range worlds {
+					w.Destroy()
+				}
+			}()
+			for _, rev := range []bool{false, true} {
+				for _, pfx := range []string{"", "a"} {
+					stop := false
+					enumCalls(l, bnd, func(calls []itCall) bool {
+						for _, c := range calls {
+							if c.K == "write" {
+								return true // interleaved writes belong to C10
+							}
+						}
+						progressTick.Add(1)
+						first := ""
+						for i, w := range worlds {
+							tr, pruned := c14IterTranscript(w, keys, rev, pfx, calls, vals)
+							res.Execs++
+							if pruned {
+								return true
+							}
+							if i == 0 {
+								first = tr
+								continue
+							}
+							res.Evals++
+							if tr != first {
+								r := c10Replay{Level: "lockstep", Mask: mask, Rev: rev, Prefix: pfx, Calls: append([]itCall{}, calls...), Index: cfgs[i].Index, Shards: cfgs[i].Shards}
+								res.Violations = append(res.Violations, Violation{Prop: "C14", Clause: "iteration-differs", Sig: "iteration-differs:" + diffDim(cfgs[0], cfgs[i]),
+									Detail: fmt.Sprintf("%s\nunder %s: %s\nunder %s: %s", r.String(), cfgs[0], first, cfgs[i], tr), Replay: mustJSON(r)})
+								stop = true
+								return false
+							}
+						}
+						res.Transitions += int64(len(calls))
+						res.States = append(res.States, hash64(first))
+						res.Nontrivial++
+						return true
+					})
+					if stop {
+						return
+					}
+				}
+			}
+			res.Samples = append(res.Samples, fmt.Sprintf("iterator lock-step: keys %q x directions x prefixes {\"\",a} x all call sequences (l=%d b=%d) under %d (index type, shard count) configurations", keys, l, bnd, len(cfgs)))
+		}})
+	}
+	return tasks
+}
+
 func init() {
 	register(&Check{
 		Prop:   "C14",
 		Engine: "seq",
-		Rule:   "every operation sequence within the bound is executed in lock-step under every configuration of the set (adversarial caller: reused, poisoned key/value buffers); all transcripts (every return value / error class, Get of every key, ListKeys, Fold, iterators both ways, KeyNum, and the same after a final restart) must be identical; within equal (DataFileSize, sync strategy) also the full Stat and, for batch-free sequences, the data-file bytes after Close. non-trivial = a universe key was both present and absent during the sequence",
+		Rule:   "every operation sequence within the bound is executed in lock-step under every configuration of the set (adversarial caller: reused, poisoned key/value buffers); all transcripts (every return value / error class, Get of every key, ListKeys, Fold, iterators both ways, KeyNum, and the same after a final restart) must be identical; within equal (DataFileSize, sync strategy) also the full Stat and, for batch-free sequences, the data-file bytes after Close. plus an iterator lock-step level: every key set of >= 3 of 6 keys x direction x prefix x every iterator call sequence (Rewind/Seek/Next) must give identical (Valid, Key, Value) transcripts under all 12 (index type, shard count) configurations. non-trivial = a universe key was both present and absent during the sequence / every iterator call sequence",
 		Assumptions: []string{
 			"inputs are identical across configurations (fixed value lengths 3/39/210/0 bytes)",
 			"batch ids are time-based, so file bytes are compared for batch-free sequences only",
@@ -261,7 +395,8 @@ func init() {
 				d, b = 5, 2
 			}
 			cfgs := c14Cfgs(tier)
-			return seqTasks("C14", []seqLevel{{Name: fmt.Sprintf("lockstep-d%db%d-x%dcfgs", d, b, len(cfgs)), Cfgs: []Cfg{defaultCfg}, Keys: keysAB, Alpha: c14Alphabet, Depth: d, Dev: b, Split: 2, Run: makeRunC14(cfgs)}})
+			tasks := seqTasks("C14", []seqLevel{{Name: fmt.Sprintf("lockstep-d%db%d-x%dcfgs", d, b, len(cfgs)), Cfgs: []Cfg{defaultCfg}, Keys: keysAB, Alpha: c14Alphabet, Depth: d, Dev: b, Split: 2, Run: makeRunC14(cfgs)}})
+			return append(tasks, c14IterTasks(tier)...)
 		},
 		Bounds: func(tier string) map[string]any {
 			d, b := 4, 2
